@@ -174,6 +174,12 @@ fn mirror_rows(m: &Mirror) -> Val {
     rows(&r)
 }
 
+// what travels on the session's event channel (ToPeerEvent::{NlriChange, RefreshWalk})
+enum Ev {
+    Change(table::NlriChange),
+    Walk(Vec<table::NlriChange>),
+}
+
 struct World {
     table: table::Table,
     srcs: Vec<Arc<table::Source>>,
@@ -186,7 +192,7 @@ struct World {
     policy0: Option<Arc<table::PolicyAssignment>>,
     glue_limited: bool,
     registered: bool,
-    chan: VecDeque<table::NlriChange>,
+    chan: VecDeque<Ev>,
     export_map: ExportMap,
     pending: crate::peer_tx::PendingTx,
     mirror: Mirror,
@@ -253,7 +259,15 @@ impl World {
         Val::L(vec![
             mirror_rows(&self.mirror),
             mirror_rows(&fresh),
-            Val::L(self.chan.iter().map(|c| Val::n(net_idx(&c.net))).collect()),
+            Val::L(
+                self.chan
+                    .iter()
+                    .filter_map(|e| match e {
+                        Ev::Change(c) => Some(Val::n(net_idx(&c.net))),
+                        Ev::Walk(_) => Some(Val::n(999)),
+                    })
+                    .collect(),
+            ),
             Val::b(fresh == self.mirror),
         ])
     }
@@ -285,7 +299,7 @@ impl World {
                 ),
             ]));
             if self.registered {
-                self.chan.push_back(c);
+                self.chan.push_back(Ev::Change(c));
             }
         }
     }
@@ -415,13 +429,39 @@ fn run_case(case: &Val) -> Val {
                 w.emit(cs, &mut out);
             }
             4 => {
-                // handle_prefix_update on the oldest queued change
-                if let Some(c) = w.chan.pop_front() {
-                    let mut em = std::mem::take(&mut w.export_map);
-                    let mut p = std::mem::replace(&mut w.pending, crate::peer_tx::PendingTx::new(aptx));
-                    w.process(&c, &mut em, &mut p);
-                    w.export_map = em;
-                    w.pending = p;
+                // run_select on the oldest queued event: handle_prefix_update, or the
+                // RefreshWalk arm (apply_refresh_walk + schedule_eor)
+                match w.chan.pop_front() {
+                    Some(Ev::Change(c)) => {
+                        let mut em = std::mem::take(&mut w.export_map);
+                        let mut p =
+                            std::mem::replace(&mut w.pending, crate::peer_tx::PendingTx::new(aptx));
+                        w.process(&c, &mut em, &mut p);
+                        w.export_map = em;
+                        w.pending = p;
+                    }
+                    Some(Ev::Walk(changes)) => {
+                        let mut em = std::mem::take(&mut w.export_map);
+                        let mut p =
+                            std::mem::replace(&mut w.pending, crate::peer_tx::PendingTx::new(aptx));
+                        for c in &changes {
+                            // once per path, named as replaced, for add-path
+                            let replaced: Vec<Option<u32>> = if w.max > 1 {
+                                c.current_paths.iter().map(|p| Some(p.local_path_id)).collect()
+                            } else {
+                                vec![None]
+                            };
+                            for r in replaced {
+                                let mut c = c.clone();
+                                c.replaced_path_id = r;
+                                w.process(&c, &mut em, &mut p);
+                            }
+                        }
+                        p.schedule_eor();
+                        w.export_map = em;
+                        w.pending = p;
+                    }
+                    None => {}
                 }
                 out.push(Val::L(vec![Val::n(2), Val::b(w.pending.is_empty())]));
             }
@@ -440,26 +480,11 @@ fn run_case(case: &Val) -> Val {
                 out.push(Val::L(vec![Val::n(4)]));
             }
             7 => {
+                // do_route_refresh -> TableManager::queue_refresh_walk: the snapshot is taken
+                // under the shard lock and queued behind the changes already on the channel
                 if w.registered {
                     let changes = w.snapshot();
-                    let mut em = std::mem::take(&mut w.export_map);
-                    let mut p = std::mem::replace(&mut w.pending, crate::peer_tx::PendingTx::new(aptx));
-                    for c in &changes {
-                        // do_route_refresh: once per path, named as replaced, for add-path
-                        let replaced: Vec<Option<u32>> = if w.max > 1 {
-                            c.current_paths.iter().map(|p| Some(p.local_path_id)).collect()
-                        } else {
-                            vec![None]
-                        };
-                        for r in replaced {
-                            let mut c = c.clone();
-                            c.replaced_path_id = r;
-                            w.process(&c, &mut em, &mut p);
-                        }
-                    }
-                    p.schedule_eor();
-                    w.export_map = em;
-                    w.pending = p;
+                    w.chan.push_back(Ev::Walk(changes));
                 }
                 out.push(Val::L(vec![Val::n(5), Val::b(w.pending.is_empty())]));
             }
